@@ -21,6 +21,15 @@
                        CloseUnknown / the read loop's deferred close still run the teardown (once); WritePacket
                        and CloseWith answer ErrClosedConn without closing anything (observed on the real code).
 
+     teardown order  : inside the once-body cancelCtx() comes FIRST, then c.c.Close(), then Disconnected().
+                       So while Disconnected() runs Closed(c) is already true: what the handler does with
+                       its own connection from there (WritePacket, Write, BufferPacket, BufferPayload,
+                       CloseWith, a close guarded by "if !Closed(c)" - also via the player/backend pairing,
+                       where the other side's teardown comes back to this connection) answers ErrClosedConn /
+                       is skipped and never reaches closeOnce again.  A call that does reach closeKnown from
+                       inside the once-body (an unguarded Close, or a write on the closed socket when
+                       Closed(c) is still false) blocks forever on sync.Once's mutex: c_stuck.
+
    [cfg] switches the two guards off so that what each of them is needed for is a model fact
    (impl_cfg = the code as it is: both on).  The peer closing its end (reads see EOF, writes fail) and
    the blocked read returning an error are environment actions. *)
@@ -29,8 +38,21 @@ From Verif Require Import Base.Conc.
 Import ListNotations.
 
 (* early_exit: a variant of closeKnown that first answers ErrClosedConn when Closed(c) (NOT in the code) *)
-Record cfg := mkCfg { use_once : bool; use_recover : bool; early_exit : bool }.
-Definition impl_cfg : cfg := mkCfg true true false.
+(* cancel_first: cancelCtx() before the socket is closed and the handler runs (the code: true) *)
+Record cfg := mkCfg { use_once : bool; use_recover : bool; early_exit : bool; cancel_first : bool }.
+Definition impl_cfg : cfg := mkCfg true true false true.
+
+(* what the session handler's Disconnected() does with ITS OWN connection *)
+Inductive dop :=
+| DWrite          (* WritePacket / Write / BufferPacket / BufferPayload *)
+| DCloseWith      (* netmc.CloseWith(c, packet) *)
+| DGuardedClose   (* if !netmc.Closed(c) { Close / CloseUnknown }  (serverConnection.disconnect0 pattern) *)
+| DRawClose.      (* c.Close() without a guard *)
+(* DClosed: ErrClosedConn; DSkipped: the guard skipped the close; DOther: anything else (observations only) *)
+Inductive dres := DClosed | DSkipped | DOther.
+(* what such a call answers when Closed(c) is already true *)
+Definition res_of (d : dop) : dres := match d with DGuardedClose => DSkipped | _ => DClosed end.
+Definition guarded (d : dop) : bool := match d with DRawClose => false | _ => true end.
 
 (* what HandlePacket does with one incoming packet: returns, or panics with a value of some kind *)
 Inductive pval := PError | PString | PRuntime | PCustom.
@@ -40,6 +62,8 @@ Inductive hkind := HReturn | HPanic (v : pval).
 Inductive creg := CIdle | CGo | CFailed | CSkip.
 
 Record cst := mkC {
+  c_dops : list dop;      (* behaviour of the installed handler's Disconnected() (never changes) *)
+  c_stuck : bool;         (* a goroutine re-entered closeOnce.Do from inside its body: teardown never ends *)
   c_closed : bool;        (* the teardown called cancelCtx() *)
   c_once : bool;          (* closeOnce has fired *)
   c_cancel : bool;        (* the parent context given to NewMinecraftConn was cancelled *)
@@ -50,7 +74,8 @@ Record cst := mkC {
   c_regs : list creg
 }.
 
-Definition cinit : cst := mkC false false false false false false 0 [].
+Definition cinit_d (dops : list dop) : cst := mkC dops false false false false false false false 0 [].
+Definition cinit : cst := cinit_d [].
 
 Inductive wres := WOk | WClosed | WIO.
 Inductive cres := CFirst | CAlready.
@@ -58,6 +83,8 @@ Inductive cres := CFirst | CAlready.
 Inductive event :=
 | EDisc                              (* SessionHandler.Disconnected() ran *)
 | ECancel                            (* the parent context was cancelled *)
+| EDop (d : dop) (r : dres)           (* a call made by Disconnected() on its own connection returned *)
+| EStuck                             (* closeOnce.Do re-entered from inside its own body: never returns *)
 | ECloseRet (t : nat) (r : cres)      (* closeKnown returned to goroutine t: ran the teardown / ErrClosedConn *)
 | ECwSkip (t : nat)                   (* CloseWith saw Closed(c) and answered ErrClosedConn without closing *)
 | EWStart (t : nat) (saw_closed : bool)   (* a write began; what its Closed(c) check saw *)
@@ -77,21 +104,44 @@ Fixpoint upd {A : Type} (d : A) (i : nat) (x : A) (l : list A) : list A :=
 
 Definition get_reg (t : nat) (s : cst) : creg := nth t (c_regs s) CIdle.
 Definition set_reg (t : nat) (r : creg) (s : cst) : cst :=
-  mkC (c_closed s) (c_once s) (c_cancel s) (c_broken s) (c_loop_done s) (c_died s) (c_next s) (upd CIdle t r (c_regs s)).
+  mkC (c_dops s) (c_stuck s) (c_closed s) (c_once s) (c_cancel s) (c_broken s) (c_loop_done s) (c_died s) (c_next s) (upd CIdle t r (c_regs s)).
 
 (* Closed(c) *)
 Definition seen_closed (s : cst) : bool := c_closed s || c_cancel s.
 
-(* a dead process does nothing *)
+(* a dead process does nothing; once the teardown is stuck nothing that concerns this connection moves *)
 Definition alive (a : cst -> cst * list event) : @action cst event :=
-  fun s => if c_died s then (s, []) else a s.
+  fun s => if c_died s || c_stuck s then (s, []) else a s.
+
+(* the calls Disconnected() makes on its own connection, evaluated while the once-body runs;
+   [closed_now] = what Closed(c) answers at that moment.  Returns the events and whether one of the calls
+   re-entered closeOnce.Do (then the remaining ones never happen). *)
+Fixpoint run_dops (closed_now : bool) (ds : list dop) : list event * bool :=
+  match ds with
+  | [] => ([], false)
+  | d :: r =>
+      let reenters :=
+        match d with
+        | DWrite | DCloseWith => negb closed_now    (* reaches the closed socket, fails, closeOnWriteErr -> Close *)
+        | DGuardedClose => negb closed_now
+        | DRawClose => true
+        end in
+      if reenters then ([EStuck], true)
+      else let '(e, st) := run_dops closed_now r in
+           (EDop d (res_of d) :: e, st)
+  end.
 
 (* closeKnown *)
 Definition do_close (c : cfg) (t : nat) (s : cst) : cst * list event :=
   if (use_once c && c_once s) || (early_exit c && (c_closed s || c_cancel s))
   then (s, [ECloseRet t CAlready])
-  else (mkC true true (c_cancel s) (c_broken s) (c_loop_done s) (c_died s) (c_next s) (c_regs s),
-        [EDisc; ECloseRet t CFirst]).
+  else
+    let '(e, stuck) := run_dops (cancel_first c || c_cancel s) (c_dops s) in
+    if stuck
+    then (mkC (c_dops s) true (cancel_first c) true (c_cancel s) (c_broken s) (c_loop_done s) (c_died s) (c_next s) (c_regs s),
+          EDisc :: e)
+    else (mkC (c_dops s) (c_stuck s) true true (c_cancel s) (c_broken s) (c_loop_done s) (c_died s) (c_next s) (c_regs s),
+          EDisc :: e ++ [ECloseRet t CFirst]).
 
 Definition a_close (c : cfg) (t : nat) : @action cst event := alive (do_close c t).
 
@@ -143,35 +193,35 @@ Definition closewith_thread (c : cfg) (t : nat) : list (@action cst event) :=
 
 (* environment: the peer closes its end *)
 Definition a_peer_close : @action cst event := alive (fun s =>
-  (mkC (c_closed s) (c_once s) (c_cancel s) true (c_loop_done s) (c_died s) (c_next s) (c_regs s), [])).
+  (mkC (c_dops s) (c_stuck s) (c_closed s) (c_once s) (c_cancel s) true (c_loop_done s) (c_died s) (c_next s) (c_regs s), [])).
 
 (* environment: the parent context is cancelled *)
 Definition a_cancel : @action cst event := alive (fun s =>
-  (mkC (c_closed s) (c_once s) true (c_broken s) (c_loop_done s) (c_died s) (c_next s) (c_regs s), [ECancel])).
+  (mkC (c_dops s) (c_stuck s) (c_closed s) (c_once s) true (c_broken s) (c_loop_done s) (c_died s) (c_next s) (c_regs s), [ECancel])).
 
 (* one iteration of the read loop: the next incoming packet is handled with behaviour h *)
 Definition a_iter (c : cfg) (h : hkind) : @action cst event := alive (fun s =>
   if c_loop_done s then (s, [])
   else if seen_closed s
   then (* cond() is false: leave, the deferred closeKnown(false) runs *)
-       let '(s1, e1) := do_close c 0 (mkC (c_closed s) (c_once s) (c_cancel s) (c_broken s) true (c_died s) (c_next s) (c_regs s)) in
+       let '(s1, e1) := do_close c 0 (mkC (c_dops s) (c_stuck s) (c_closed s) (c_once s) (c_cancel s) (c_broken s) true (c_died s) (c_next s) (c_regs s)) in
        (s1, ELoopExit :: e1)
   else
     let i := c_next s in
-    let s' := mkC (c_closed s) (c_once s) (c_cancel s) (c_broken s) (c_loop_done s) (c_died s) (S i) (c_regs s) in
+    let s' := mkC (c_dops s) (c_stuck s) (c_closed s) (c_once s) (c_cancel s) (c_broken s) (c_loop_done s) (c_died s) (S i) (c_regs s) in
     match h with
     | HReturn => (s', [EHandle i h])
     | HPanic _ =>
         if use_recover c
         then (s', [EHandle i h; ERecovered i])          (* ok = true: the outer loop goes on *)
-        else (mkC (c_closed s) (c_once s) (c_cancel s) (c_broken s) (c_loop_done s) true (S i) (c_regs s),
+        else (mkC (c_dops s) (c_stuck s) (c_closed s) (c_once s) (c_cancel s) (c_broken s) (c_loop_done s) true (S i) (c_regs s),
               [EHandle i h; EDied])
     end).
 
 (* the blocked read returns an error (EOF, timeout, closed pipe): leave, deferred closeKnown(false) *)
 Definition a_read_err (c : cfg) : @action cst event := alive (fun s =>
   if c_loop_done s then (s, [])
-  else let '(s1, e1) := do_close c 0 (mkC (c_closed s) (c_once s) (c_cancel s) (c_broken s) true (c_died s) (c_next s) (c_regs s)) in
+  else let '(s1, e1) := do_close c 0 (mkC (c_dops s) (c_stuck s) (c_closed s) (c_once s) (c_cancel s) (c_broken s) true (c_died s) (c_next s) (c_regs s)) in
        (s1, ELoopExit :: e1)).
 
 Definition readloop_thread (c : cfg) (script : list hkind) : list (@action cst event) :=
@@ -200,6 +250,12 @@ Fixpoint gors_from (c : cfg) (t : nat) (gs : list gor) : list (list (@action cst
   | [] => []
   | g :: r => gor_thread c t g :: gors_from c (S t) r
   end.
+
+(* events of the calls made from inside the teardown *)
+Definition dop_results (evs : list event) : list dres :=
+  flat_map (fun e => match e with EDop _ r => [r] | _ => [] end) evs.
+Definition stuck_ev (evs : list event) : bool :=
+  existsb (fun e => match e with EStuck => true | _ => false end) evs.
 
 Definition program (c : cfg) (script : list hkind) (gs : list gor) : list (list (@action cst event)) :=
   readloop_thread c script :: gors_from c 1 gs.
